@@ -180,6 +180,10 @@ def run(ctx, extra_cases=()):
         src_, spec_ = ln.split()
         by_src.setdefault(src_, []).append(spec_)
     ctx.translate_and_tie(list(by_src.items()), "GenFac", sorted(HD.glob("TieFac*.v")), have=1, real=8, extra_sources=["src/linalg.c"])
+    # ... and the loop routines with their loops as Fixpoints (tools/c2arr.py), proved equal to the model for EVERY order that is
+    # an a_uint value (harness/C08/TieLoop*.v)
+    import varr
+    varr.arr_translate_and_tie(ctx, "C08")
     if proved and not ctx.quick:
         rc, out = vlib.sh(["coqchk", "-silent", "-o", "-Q", ".", "LibaV", "LibaV.Properties_C08"], cwd=vlib.COQ, timeout=1200)
         ok = rc == 0 and "type-in-type: <none>" in out and "unsafe (co)fixpoints: <none>" in out \
@@ -396,13 +400,24 @@ META = {
             "algorithm exact in binary32 - checked with exact fractions) against exactly those factors, the exact rational solutions, "
             "inverses and determinants, exactly singular / non-positive inputs against the failure code, pivots on either side of "
             "A_REAL_MIN of each configuration, and full-mantissa matrices against the exact value within the rounding allowance of the "
-            "configuration; every array is an exactly-sized pool block between guard bytes.",
+            "configuration; every array is an exactly-sized pool block between guard bytes. "
+            "LOOP TIE (harness/C08/TieLoop1.v .. TieLoop7.v, 31 theorems re-proved on every run): the LDL^T and Cholesky families - the "
+            "factorisations a_real_ldl / a_real_llt with their early failure return included - and the permutation-free PLU routines "
+            "(L, U, D extraction, forward and backward substitution plain and strided, solve, the inverses with their scratch vector, "
+            "det and lndet: the list of harness/C08/tie_names.txt) are regenerated from the current sources with their 66 loops as "
+            "Fixpoints (tools/c2arr.py) and proved equal to the model FactorDefs.v for every NumOps instance (through the same `adapt` "
+            "as the unrolled tie) and EVERY order that is an a_uint value, every array of any length (an access outside: None on both "
+            "sides); the running pointers of the C are carried as the closed-form indices of the model by the loop lemmas. Not "
+            "regenerated: a_real_plu, plu_P, plu_apply, plu_solve, plu_inv (the sign flip `*sign = -*sign` needs negative integers, "
+            "which c2arr does not represent; plu_det is tied for a non-negative sign).",
     "note": "Trusted: Coq kernel/vm_compute with primitive floats and ints; real-number axioms listed by Print Assumptions; "
             "the 'same term, different NumOps record' argument between R and binary64; running-pointer walks modelled by "
             "closed-form cell indices, a_uint as nat; hand-written model tied bit for bit on generated matrices (orders 1-12 "
-            "quick, 1-24 thorough) only. On finite inputs whose intermediates overflow the C reports success with inf/NaN "
+            "quick, 1-24 thorough) and by the translator ties (unrolled: orders 0..4; loops as Fixpoints: every order), in which the "
+            "translators tools/c2coq.py and tools/c2arr.py are trusted to read the C right - their output is proved equal to the model, "
+            "not to the C. On finite inputs whose intermediates overflow the C reports success with inf/NaN "
             "factors (x < A_REAL_MIN is false for NaN): treated as outside the property's rounding model and counted in the evidence. "
             "The float and long double builds are not modelled in Rocq: they are covered by the glue run only (generated exact and "
             "well-conditioned matrices; lndet there is compared with a binary64 reference within a float-suited tolerance).",
-    "technique": "Rocq proof over R (loop invariants P_k A = L_k R_k, permutation parity, triangular solves) + the LDL^T/Cholesky families and the permutation-free PLU routines re-translated on every run (orders 0..4, loops unrolled, callees inlined) and proved equal to the model for all entries + bit-exact primitive-float model vs C correspondence + exact-rational residual oracle",
+    "technique": "Rocq proof over R (loop invariants P_k A = L_k R_k, permutation parity, triangular solves) + the LDL^T/Cholesky families and the permutation-free PLU routines re-translated on every run (orders 0..4, loops unrolled, callees inlined) and proved equal to the model for all entries + bit-exact primitive-float model vs C correspondence + exact-rational residual oracle + the same routines and the two factorisations re-translated with their loops as Fixpoints and proved equal to the model for every order",
 }
